@@ -190,6 +190,8 @@ inductive Script where
   | seq (a b : Script)
   | withSet (assigns : List (List Key × Val)) (body : Script)   -- `with set(arg, **kwargs): body`
   | tryCatch (body : Script)               -- `try: body  except Exception: pass`
+  | reenter (assigns : List (List Key × Val)) (body after : Script)
+      -- `s = set(arg, **kwargs)` then `with s:` { `with s: body` ; `after` } — ONE object entered again inside its own block
   deriving Repr, Inhabited
 
 structure St where
@@ -219,6 +221,19 @@ def run : Script → St → St × Option Err
   | .tryCatch body, st =>
       match run body st with
       | (st', _) => (st', none)
+  | .reenter assigns body after, st =>
+      -- `__enter__` counts the open blocks of the object (`_depth`); the inner `__exit__` finds `_depth > 1`, decrements and
+      -- returns without touching the configuration; only the outermost `__exit__` replays the records
+      match init assigns st.cfg with
+      | (c1, _, some e) => ({ st with cfg := c1 }, some e)
+      | (c1, recs, none) =>
+          let (st2, out) :=
+            match run body { st with cfg := c1 } with          -- inner block, inner exit: no rollback
+            | (sti, none) => run after sti                        -- rest of the outer block
+            | (sti, some e) => (sti, some e)
+          match exitAll recs.reverse st2.cfg with
+          | (c3, none) => ({ st2 with cfg := c3 }, out)
+          | (c3, some e) => ({ st2 with cfg := c3 }, some e)
 
 /-- scripts whose bodies touch the configuration only through `set` -/
 def Script.setOnly : Script → Bool
@@ -229,5 +244,35 @@ def Script.setOnly : Script → Bool
   | .seq a b => a.setOnly && b.setOnly
   | .withSet _ body => body.setOnly
   | .tryCatch body => body.setOnly
+  | .reenter _ body after => body.setOnly && after.setOnly
+
+/-- does some `__exit__` raise while the script runs? (mirrors `run`) -/
+def exitRaises : Script → St → Bool
+  | .snap, _ => false
+  | .raise, _ => false
+  | .poke _ _, _ => false
+  | .del _, _ => false
+  | .seq a b, st =>
+      exitRaises a st || (match run a st with
+        | (st', none) => exitRaises b st'
+        | _ => false)
+  | .withSet assigns body, st =>
+      match init assigns st.cfg with
+      | (_, _, some _) => false
+      | (c1, recs, none) =>
+          exitRaises body { st with cfg := c1 } ||
+            (exitAll recs.reverse (run body { st with cfg := c1 }).1.cfg).2.isSome
+  | .tryCatch body, st => exitRaises body st
+  | .reenter assigns body after, st =>
+      match init assigns st.cfg with
+      | (_, _, some _) => false
+      | (c1, recs, none) =>
+          let r := run body { st with cfg := c1 }
+          let r2 := match r with
+            | (sti, none) => run after sti
+            | (sti, some e) => (sti, some e)
+          exitRaises body { st with cfg := c1 } ||
+            (match r with | (sti, none) => exitRaises after sti | _ => false) ||
+            (exitAll recs.reverse r2.1.cfg).2.isSome
 
 end AbtemVerif.Config
